@@ -489,7 +489,7 @@ func c19perf(c Case) (types.PerformanceConfig, bool) {
 func c19free(c Case, rowsPer, slow int) ([][]string, string) {
 	nprod := c19cfgInt(c, "nprod", 1)
 	perf, _ := c19perf(c)
-	ssql := streamsql.New(streamsql.WithDiscardLog(), streamsql.WithCustomPerformance(perf))
+	ssql := streamsql.New(presetOpt(), streamsql.WithDiscardLog(), streamsql.WithCustomPerformance(perf))
 	if err := ssql.Execute("SELECT p, k FROM stream"); err != nil {
 		return [][]string{{"execute-error"}}, "execute-error"
 	}
@@ -596,7 +596,7 @@ func (c19) Exec(c Case) [][][]string {
 	perf, timeout := c19perf(c)
 	if v := c19cfgGet(c, "badstrat"); len(v) > 0 {
 		perf.OverflowConfig.Strategy = v[0]
-		ssql := streamsql.New(streamsql.WithDiscardLog(), streamsql.WithCustomPerformance(perf))
+		ssql := streamsql.New(presetOpt(), streamsql.WithDiscardLog(), streamsql.WithCustomPerformance(perf))
 		err := ssql.Execute("SELECT p, k FROM stream")
 		ssql.Stop()
 		if err != nil {
@@ -638,7 +638,7 @@ func (c19) Exec(c Case) [][][]string {
 		r.stop = s.thread("stop")
 	}
 
-	r.ssql = streamsql.New(streamsql.WithDiscardLog(), streamsql.WithCustomPerformance(perf))
+	r.ssql = streamsql.New(presetOpt(), streamsql.WithDiscardLog(), streamsql.WithCustomPerformance(perf))
 	stream.VerifSetYield(s.yield)
 	defer stream.VerifSetYield(nil)
 	obs := make([][][]string, 0, len(c.Ops))
